@@ -344,6 +344,14 @@ void run_case(Choices &c, Ctx &ctx)
 			break;
 		default: bytes = c.coin(50) ? "" : "   "; ctx.label("read_empty"); break;
 		}
+		if (c.coin(4))
+		{
+			// a UTF-8 byte order mark (or part of one) in front: whatever the in-memory parser makes of these bytes,
+			// the descriptor entry points must make the same of them, however the reads are split
+			static const char bom[] = "\xef\xbb\xbf";
+			bytes = std::string(bom, 1 + c.pickn(3)) + bytes;
+			ctx.label("read_bom_prefix");
+		}
 		std::vector<size_t> sizes = gen_sizes(c, bytes.size());
 		long err_at = c.coin(25) ? (long)c.range(0, 12) : -1;
 		int depth = c.coin(70) ? 32 : (int)c.irange(-2, 8);
